@@ -223,31 +223,44 @@ fn run_case(c: &Case) -> Result<RunOut, (String, String)> {
 }
 
 fn make_case(r: &mut Rng, i: usize, thorough: bool) -> Case {
-    let kind = if i % 16 == (i / 16) % 16 { 3 } else { i % 3 };
-    let quality = if kind == 0 { if r.chance(3, 4) { 2 } else { 3 } } else if r.chance(1, 2) { 2 } else { 3 };
-    let lgwin = *r.pick(&[10u32, 11, 12, 14, 16, 17, 18, 20, 22, 24]);
+    // quick tier: 32 cases — per 16: 1 multi-block ordinary text (kind 3), 2 multi-block highly repetitive texts
+    // (kind 4: cheap to write, keep a meta-block open and take the extend_last_command path), the rest small;
+    // thorough tier: the same mix, 1200 cases, longer texts
+    let slot = (i + i / 16) % 16;
+    // 1 ordinary + 4 repetitive multi-block texts per 16 cases
+    let kind = if slot == 0 { 3 } else if slot == 2 || slot == 5 || slot == 8 || slot == 11 { 4 } else { i % 3 };
+    let quality = if kind == 0 { if r.chance(1, 8) { 3 } else { 2 } } else if r.chance(1, 2) { 2 } else { 3 };
+    // the ring buffer has 2^(1 + max(lgwin, 14)) bytes and the model rebuilds its byte view per invocation: large windows
+    // are sampled sparsely (thorough tier only)
+    let lgwin = if thorough && r.chance(1, 8) { *r.pick(&[17u32, 18, 20, 22]) } else { *r.pick(&[10u32, 11, 12, 13, 14, 15, 16]) };
     let large = r.chance(1, 10);
     let catable = r.chance(1, 6);
     let appendable = catable || r.chance(1, 6);
     let magic = r.chance(1, 8);
-    // kind 0: small text with dictionary words (dictionary on); 1: small generated; 2: medium generated; 3: multi-block generated
+    // kind 0: small text with dictionary words (dictionary on); 1: small generated; 2: medium generated; 3/4: multi-block generated
     let (input_tok, input, use_dict) = match kind {
         0 => {
-            let len = r.range(1, 420) as usize;
+            let len = r.range(1, if thorough { 420 } else { 300 }) as usize;
             let t = word_text(r, len);
             (format!("x{}", hex(&t)), t, !catable)
         }
         1 => {
-            let (seed, len, alpha, rep) = (r.below(1 << 30), r.range(0, 2500), r.range(1, 26), r.range(0, 40));
+            let (seed, len, alpha, rep) = (r.below(1 << 30), r.range(0, if thorough { 2500 } else { 1200 }), r.range(1, 26), r.range(0, 40));
             (format!("g{}.{}.{}.{}", seed, len, alpha, rep), gen_text(seed, len as usize, alpha, rep), false)
         }
         2 => {
-            let (seed, len, alpha, rep) = (r.below(1 << 30), r.range(2000, 6000), r.range(2, 200), r.range(0, 30));
+            let (seed, len, alpha, rep) = (r.below(1 << 30), r.range(1500, if thorough { 6000 } else { 3000 }), r.range(2, 200), r.range(0, 30));
+            (format!("g{}.{}.{}.{}", seed, len, alpha, rep), gen_text(seed, len as usize, alpha, rep), false)
+        }
+        3 => {
+            let hi = if thorough { 40000 } else { 17500 };
+            let (seed, len, alpha, rep) = if thorough { (r.below(1 << 30), r.range(16385, hi), r.range(2, 160), r.range(0, 25)) }
+                else { (r.below(1 << 30), r.range(16385, hi), r.range(2, 8), r.range(30, 60)) };
             (format!("g{}.{}.{}.{}", seed, len, alpha, rep), gen_text(seed, len as usize, alpha, rep), false)
         }
         _ => {
-            let hi = if thorough { 40000 } else { 19000 };
-            let (seed, len, alpha, rep) = (r.below(1 << 30), r.range(16385, hi), r.range(2, 160), r.range(0, 25));
+            let hi = if thorough { 50000 } else { 22000 };
+            let (seed, len, alpha, rep) = (r.below(1 << 30), r.range(16385, hi), r.range(1, 2), r.range(80, 99));
             (format!("g{}.{}.{}.{}", seed, len, alpha, rep), gen_text(seed, len as usize, alpha, rep), false)
         }
     };
@@ -255,6 +268,12 @@ fn make_case(r: &mut Rng, i: usize, thorough: bool) -> Case {
     let mut reqs: Vec<(u8, usize)> = vec![];
     let mut left = input.len();
     let pieces = r.range(1, 4);
+    if kind >= 3 && r.chance(3, 4) {
+        // a first request that fills at least one whole input block without forcing: the meta-block stays open
+        let n = 16384 + r.below((left - 16384) as u64 + 1) as usize;
+        reqs.push((0, n));
+        left -= n;
+    }
     for k in 0..pieces {
         if k + 1 == pieces { reqs.push((2, left)); left = 0; }
         else {
@@ -270,7 +289,7 @@ fn make_case(r: &mut Rng, i: usize, thorough: bool) -> Case {
 
 pub fn run_cmd(args: &Args) {
     let thorough = args.tier == "thorough";
-    let n = if thorough { 1200 } else { 96 };
+    let n = if thorough { 1200 } else { 32 };
     let seed = args.seed;
     let results = par_tasks(n, move |i| {
         let mut r = Rng::new(seed ^ 0xe2e0_0000 ^ ((i as u64) << 20));
